@@ -69,7 +69,7 @@ def cmd_check(a):
     # import); concurrent first imports by the job processes would race on those files
     subprocess.run([sys.executable, '-c', 'import bitcoinlib'], env=env, cwd=VERIF, capture_output=True, timeout=300)
     sys.path.insert(0, VERIF)
-    evdir = os.path.join(VERIF, 'evidence')
+    evdir = os.environ.get('VT_EVIDENCE_DIR') or os.path.join(VERIF, 'evidence')   # (override: developer runs against seeded changes)
     os.makedirs(os.path.join(evdir, 'replays'), exist_ok=True)
     if not a.only:
         for fn in os.listdir(os.path.join(evdir, 'replays')):
